@@ -91,8 +91,23 @@ CHECKS = {
    note=NOTE_COMMON + 'Spline columns are those of C03 (same model function); order-0 / cyclic spline features are not sampled within 1e-6 of a jump.',
    technique='Lean 4 theorems (list induction, Nat div/mod index algebra, C03 basis lemmas) + exact-rational differential correspondence on random term programs',
    ref='7/C16'),
+ 'C12': dict(
+   text='Theorems (Field / ordered field): B^T W^2 B + A and B^T W^2 z are sums over rows, so any permutation of the rows (model matrix, working weights and mask together) leaves the normal equations, every PIRLS step and the criterion unchanged; edge knots are affine-equivariant and the model matrix, predictions and penalties of every term list whose rescaled features enter only through spline bases are unchanged under x -> a x + b (a > 0) with knots and query points mapped likewise; integer weights equal row replication for the normal matrix, right-hand side and deviance (working weights are linear in the sample weight); for fixed (B, w, A) solutions of the normal equations add and scale with y, are unique when B^T W B + A is definite, hence fitted values are linear in y; RSS scales by c^2, scale / GCV / covariance by c^2, centred Wald statistics (p-values) and the pseudo-inverse scale-free. Correspondence: the Float / exact model normal matrices, right-hand sides, columns and knots vs the real code on transformed data, plus real fits compared before / after each transformation with a conditioning-aware tolerance.',
+   note=NOTE_COMMON + 'PARTIAL: invariance of the *computed* fit to numerical precision rests on the conditioning of the solve (floating point, not modelled): real fits are compared with a tolerance from the accuracy model eps x cond; ill-conditioned pairs are not judged (counted in the evidence).',
+   technique='Lean 4 theorems (Finset sums, permutations, Matrix algebra over a field) + exact / Float differential correspondence on transformed data and metamorphic real fits',
+   ref='12.3/C12'),
+ 'C14': dict(
+   text='Theorems about the structural model of terms.py / core.py (Model/TermAlgebra.lean): TermList(...) and + flatten nested lists and keep the first term of each info key (associative, order-preserving, duplicate-free, complete, idempotent); plural assignments are distributed over the non-intercept terms in order and read back flattened, scalars broadcast, wrong lengths rejected, validity preserved; every constructed term, tensor term (with by and verbose) and term list is rebuilt identically from its info, also after compile on the same data; get_params / set_params filter, ignore, force and read back exactly as documented and set_params(**get_params()) is the identity; GAM plural keywords are stored, handed to the term list at fit, and superseded by later assignments. Correspondence: the executable model against pygam on random expressions, assignments, info round trips (incl. pickle / deepcopy), parameter dictionaries and GAM keyword histories; behavioural oracle: identical columns / penalties / constraints from original, rebuilt, deep-copied and pickled terms.',
+   note=NOTE_COMMON + 'Two recorded known findings (plural setter AttributeError when a term lacks the attribute; duplicate keys after a plural assignment are de-duplicated on rebuild) are reported as KNOWN-FINDING. The equality of matrices is an oracle on the real code; the theorems reduce it to equality of the state the matrices are computed from.',
+   technique='Lean 4 theorems (list induction over a structural model of the term classes) + differential correspondence on random term programs and assignment histories',
+   ref='12.3/C14'),
+ 'C13': dict(
+   text='Theorems (ordered field, from the minimiser property of the penalised normal equations, C01): along increasing lam of one penalty P with everything else R held fixed, the penalty value b^T P b never increases and RSS + b^T R b never decreases; the weighted RSS itself never decreases when nothing else is penalised (rss_monotone) and is NOT monotone in general when another penalty is held fixed (rss_not_monotone_in_general, exact 2 x 2 witness, replayed on the real code every run: known finding); squeeze inequalities J(b_lam) <= F(b0)/lam, F(b_lam) <= F(b0) and weighted distance of the fitted values from any null-space fit <= F(b0) - F(b_lam) (lam -> infinity limit; straight lines are unpenalised by the second-difference penalty, zero by a ridge); lam = 0 gives the normal equations of weighted least squares with the fixed part alone; edof(lam) = sum_j a_j / (1 + lam gamma_j) under a simultaneous diagonalisation, non-increasing (edof_*_partial). Correspondence: real fits along lam paths (each penalty separately and jointly, 0 and 1e-6..1e9) against the exact model normal equations / penalty values at the real coefficients and against NumPy closed forms (augmented least squares, hat-matrix trace, null-space fit).',
+   note=NOTE_COMMON + 'PARTIAL: edof monotonicity is proved under the hypothesis of a simultaneous diagonalisation (existence = generalised symmetric eigenproblem, not proved) and checked on the real code; the RSS clause holds and is proved only in the restricted form above (KNOWN-FINDING C13-rss-decreases-with-other-penalties-fixed). Path points whose accuracy model (eps x cond of the stacked system) exceeds 1e-3 are not judged.',
+   technique='Lean 4 theorems (ordered-field inequalities from the minimiser property; Matrix trace algebra) + correspondence on lam paths of real fits + NumPy closed forms',
+   ref='12.3/C13'),
 }
-PENDING = ['C12','C13','C14']
+PENDING = []
 
 def main():
     checks = []
